@@ -87,6 +87,21 @@ verus! {
 impl<'a, K, V, S> OccupiedEntry<'a, K, V, S> {
     pub open spec fn oe_wf(&self) -> bool { self.table.table.wf() && self.table.table.valid_bucket(self.elem) }
 }
+impl<'a, K, V, S> OccupiedEntry<'a, K, V, S> {
+    /// the element the handle designates, as stored now
+    pub open spec fn cur(&self) -> (K, V) { self.table.table.elem(self.elem) }
+    /// the same handle on the same map, except that the designated element now holds `x`
+    pub open spec fn rewritten(&self, o: Self, x: (K, V)) -> bool {
+        self.elem == o.elem && self.key == o.key && self.hash == o.hash && self.table.hash_builder == o.table.hash_builder
+        && self.table.table.written(o.table.table, o.elem, x)
+    }
+}
+impl<'a, K, V, S> RawOccupiedEntryMut<'a, K, V, S> {
+    pub open spec fn cur(&self) -> (K, V) { self.table.elem(self.elem) }
+    pub open spec fn rewritten(&self, o: Self, x: (K, V)) -> bool {
+        self.elem == o.elem && self.hash_builder == o.hash_builder && self.table.written(*o.table, o.elem, x)
+    }
+}
 impl<'a, K, V, S> VacantEntry<'a, K, V, S> {
     pub open spec fn ve_wf(&self) -> bool { self.table.table.wf() }
 }
@@ -116,6 +131,28 @@ pub open spec fn raw_hashed<K, V, S>(t: RawTable<(K, V)>, hb: S) -> bool {
 }
 impl<K, V, S> HashMap<K, V, S> {
     pub open spec fn hashed(&self) -> bool { raw_hashed(self.table, self.hash_builder) }
+    /// no stored key equals `q`
+    pub open spec fn absent<Q: ?Sized>(&self, q: &Q) -> bool { raw_absent::<Q, K, V>(self.table, q) }
+    /// `self` is `o` with the element designated by `item` overwritten by `x` (same builder)
+    pub open spec fn written(&self, o: Self, item: Bucket<(K, V)>, x: (K, V)) -> bool {
+        self.hash_builder == o.hash_builder && self.table.written(o.table, item, x)
+    }
+    /// nothing observable differs (the tables' views, the cached iterator, the builder)
+    pub open spec fn same(&self, o: Self) -> bool {
+        self.hash_builder == o.hash_builder && self.table.table@ == o.table.table@ && self.table.leftovers == o.table.leftovers
+    }
+    /// at most one entry per key: the stored pairs are distinct and no two of them have equal keys
+    pub open spec fn unique(&self) -> bool { kv_unique(self.table.content()) }
+}
+pub open spec fn tv_absent<Q: ?Sized, K, V>(tv: TV<(K, V)>, q: &Q) -> bool {
+    forall|i: int| tv.items.contains_key(i) ==> !key_eq::<Q, K>(q, &(#[trigger] tv.items[i]).0)
+}
+pub open spec fn raw_absent<Q: ?Sized, K, V>(t: RawTable<(K, V)>, q: &Q) -> bool {
+    tv_absent::<Q, K, V>(t.table@, q) && (t.leftovers matches Some(lo) ==> tv_absent::<Q, K, V>(lo.table@, q))
+}
+pub open spec fn kv_unique<K, V>(c: Multiset<(K, V)>) -> bool {
+    &&& forall|x: (K, V)| #[trigger] c.count(x) <= 1
+    &&& forall|x: (K, V), y: (K, V)| #[trigger] c.count(x) > 0 && #[trigger] c.count(y) > 0 && key_eq::<K, K>(&x.0, &y.0) ==> x == y
 }
 impl<'a, K, V, S> VacantEntry<'a, K, V, S> {
     pub open spec fn hash_ok(&self) -> bool { self.hash == spec_hash::<K, S>(self.table.hash_builder, &self.key) }
@@ -143,4 +180,72 @@ verus! {
 impl<'a, K> set::Iter<'a, K> { pub open spec fn left(&self) -> nat { self.iter.left() } }
 impl<K> set::IntoIter<K> { pub open spec fn left(&self) -> nat { self.iter.left() } }
 impl<'a, K> set::Drain<'a, K> { pub open spec fn left(&self) -> nat { self.iter.left() } }
+} // verus!
+
+verus! {
+// ---- R21: dereferencing a griddle bucket = dereferencing its hashbrown bucket in the table `in_main` says it lives in.
+// These two dispatchers are the only executable code of the prelude; they are VERIFIED against the trusted
+// `hb_ref` / `hb_mut` of the dependency model (a wrong `in_main` flag fails `dep.deref.table`).
+impl<T> RawTable<T> {
+    /// `self` after the element designated by `item` has been overwritten with `x` through a reference: the slot-level
+    /// equation, and what follows from it (proved once, in `bucket_mut`)
+    pub open spec fn written(&self, o: RawTable<T>, item: Bucket<T>, x: T) -> bool {
+        self.written_slot(o, item, x) && self.same_shape(o) && self.elem(item) == x
+        && self.content() == o.content().remove(o.elem(item)).insert(x)
+    }
+    pub open spec fn written_slot(&self, o: RawTable<T>, item: Bucket<T>, x: T) -> bool {
+        if item.in_main { self.table@ == tv_written(o.table@, item.bucket@.idx, x) && self.leftovers == o.leftovers }
+        else { self.table@ == o.table@ && self.leftovers.is_some() && self.leftovers->0.items == o.leftovers->0.items
+               && self.leftovers->0.table@ == tv_written(o.leftovers->0.table@, item.bucket@.idx, x) }
+    }
+    /// nothing structural differs: same buckets occupied, same stored hashes, same counters, same invariants
+    pub open spec fn same_shape(&self, o: RawTable<T>) -> bool {
+        &&& self.wf() == o.wf() && self.sync_ok() == o.sync_ok() && self.headroom_ok() == o.headroom_ok() && self.progress_ok() == o.progress_ok()
+        &&& self.total() == o.total() && self.lo_len() == o.lo_len() && self.abs() == o.abs()
+        &&& self.leftovers.is_some() == o.leftovers.is_some()
+        &&& self.table@.id == o.table@.id && self.table@.hashes == o.table@.hashes && self.table@.items.dom() == o.table@.items.dom()
+        &&& self.table@.growth_left == o.table@.growth_left && self.table@.buckets == o.table@.buckets
+        &&& self.leftovers matches Some(lo) ==> lo.table@.id == o.leftovers->0.table@.id && lo.table@.hashes == o.leftovers->0.table@.hashes
+                && lo.table@.items.dom() == o.leftovers->0.table@.items.dom() && lo.items@ == o.leftovers->0.items@
+        &&& forall|b: Bucket<T>| #[trigger] self.valid_bucket(b) == o.valid_bucket(b)
+    }
+}
+pub fn bucket_ref<'a, T>(b: &Bucket<T>, t: &'a RawTable<T>) -> (r: &'a T)
+    requires t.valid_bucket(*b), //@ deref.valid C05,C12
+    ensures *r == t.elem(*b),
+{
+    if b.in_main { hb_ref(&b.bucket, &t.table) }
+    else { match t.leftovers { Some(ref lo) => hb_ref(&b.bucket, &lo.table), None => unreachable!() } }
+}
+/// overwriting an occupied slot changes neither the set of occupied slots nor (beyond the one element) the multiset
+pub proof fn lemma_tv_written<T>(v: TV<T>, i: int)
+    requires v.items.contains_key(i), tv_inv(v),
+    ensures forall|x: T| (#[trigger] tv_written(v, i, x)).items.dom() == v.items.dom(),
+            forall|x: T| (#[trigger] tv_written(v, i, x)).items.len() == v.items.len(),
+            forall|x: T, m: Multiset<T>| (#[trigger] tv_written(v, i, x).elems.add(m)) == v.elems.add(m).remove(v.items[i]).insert(x),
+            forall|x: T, m: Multiset<T>| (#[trigger] m.add(tv_written(v, i, x).elems)) == m.add(v.elems).remove(v.items[i]).insert(x),
+{
+    assert forall|x: T| (#[trigger] tv_written(v, i, x)).items.dom() == v.items.dom() by {
+        assert(v.items.insert(i, x).dom() =~= v.items.dom());
+    }
+    assert(v.elems.count(v.items[i]) > 0);
+    assert forall|x: T, m: Multiset<T>| (#[trigger] tv_written(v, i, x).elems.add(m)) == v.elems.add(m).remove(v.items[i]).insert(x) by {
+        assert(v.elems.remove(v.items[i]).insert(x).add(m) =~= v.elems.add(m).remove(v.items[i]).insert(x));
+    }
+    assert forall|x: T, m: Multiset<T>| (#[trigger] m.add(tv_written(v, i, x).elems)) == m.add(v.elems).remove(v.items[i]).insert(x) by {
+        assert(m.add(v.elems.remove(v.items[i]).insert(x)) =~= m.add(v.elems).remove(v.items[i]).insert(x));
+    }
+}
+pub fn bucket_mut<'a, T>(b: &Bucket<T>, t: &'a mut RawTable<T>) -> (r: &'a mut T)
+    requires old(t).valid_bucket(*b), //@ deref_mut.valid C05,C12
+    ensures *r == old(t).elem(*b), final(t).written(*old(t), *b, *final(r)),
+{
+    proof {
+        axiom_tv_inv(t.table);
+        if t.leftovers.is_some() { axiom_tv_inv(t.leftovers->0.table); }
+        if b.in_main { lemma_tv_written(t.table@, b.bucket@.idx); } else { lemma_tv_written(t.leftovers->0.table@, b.bucket@.idx); }
+    }
+    if b.in_main { hb_mut(&b.bucket, &mut t.table) }
+    else { match t.leftovers { Some(ref mut lo) => hb_mut(&b.bucket, &mut lo.table), None => unreachable!() } }
+}
 } // verus!
